@@ -58,6 +58,17 @@ func (fr *FnRun) siteDesc(c *ssa.CallCommon) string {
 			}
 		}
 	}
+	// a function-typed struct field: value:<FieldName>
+	switch v := c.Value.(type) {
+	case *ssa.UnOp:
+		if fa, ok := v.X.(*ssa.FieldAddr); ok {
+			return "value:" + fieldName(fa)
+		}
+	case *ssa.Field:
+		if stt, ok := under(v.X.Type()).(*types.Struct); ok && v.Field < stt.NumFields() {
+			return "value:" + stt.Field(v.Field).Name()
+		}
+	}
 	return "value:" + c.Value.Name()
 }
 
